@@ -1,7 +1,206 @@
 import Rie.Oracle.Core
-/-! Oracle adaptors (line protocol ↔ model) — filled in by the DirectInvoke work package. -/
+import Rie.Model.DirectInvoke
+import Rie.Model.Bucket
+/-! Oracle adaptors (line protocol ↔ model) for C17: `direcv` (request sequences through
+`ReceiveDirectInvoke`), `disend` (`SendDirectInvokeResponse`: bytes + trailer), `bucket` (real
+`Bucket` under a virtual tick source), `dishape` (real `BandwidthLimitingWriter` under a virtual
+tick source). -/
 namespace Rie.Oracle
+open Rie Rie.DirectInvoke
 
-def directInvokeModels : List (String × Model) := []
+/-- value of `key=` among the words -/
+def kv (ws : List String) (key : String) : Option String :=
+  ws.findSome? fun w =>
+    match w.splitOn "=" with
+    | [k, v] => if k == key then some v else none
+    | _ => none
+
+def hexVal (c : Char) : Option Nat :=
+  if '0' ≤ c && c ≤ '9' then some (c.toNat - '0'.toNat)
+  else if 'a' ≤ c && c ≤ 'f' then some (c.toNat - 'a'.toNat + 10)
+  else none
+
+def hexList : List Char → Option Bytes
+  | [] => some []
+  | [_] => none
+  | a :: b :: rest => do
+    let x ← hexVal a
+    let y ← hexVal b
+    let r ← hexList rest
+    some (UInt8.ofNat (x * 16 + y) :: r)
+
+/-- `-` = empty -/
+def hexBytes (s : String) : Option Bytes := if s == "-" then some [] else hexList s.toList
+
+def optNat (s : String) : Option (Option Nat) := if s == "-" then some none else s.toNat?.map some
+
+def parseIntS (s : String) : Option Int := s.toInt?
+
+def showMode : Mode → String
+  | .buffered => "B" | .streaming => "S"
+
+def parseModeS (s : String) : Option Mode :=
+  if s == "B" then some .buffered else if s == "S" then some .streaming else none
+
+def showErr : Err → String
+  | .malformedCustomerHeaders => "ErrMalformedCustomerHeaders"
+  | .invalidMaxPayloadSize => "ErrInvalidMaxPayloadSize"
+  | .invalidInvokeResponseMode => "ErrInvalidInvokeResponseMode"
+  | .invalidResponseBandwidthRate => "ErrInvalidResponseBandwidthRate"
+  | .invalidResponseBandwidthBurstSize => "ErrInvalidResponseBandwidthBurstSize"
+  | .invalidInvokeID => "ErrInvalidInvokeID"
+  | .invalidReservationToken => "ErrInvalidReservationToken"
+  | .invalidFunctionVersion => "ErrInvalidFunctionVersion"
+  | .reservationExpired => "ErrReservationExpired"
+
+def showGlobals (g : Globals) : String := s!"{g.maxSize}/{showMode g.mode}/{g.rate}/{g.burst}"
+
+def parseGlobals (ws : List String) : Option Globals :=
+  match ws with
+  | [a, b, c, d] => do some { maxSize := ← parseIntS a, mode := ← parseModeS b, rate := ← parseIntS c, burst := ← parseIntS d }
+  | _ => none
+
+def recvStep (g : Globals) (ws : List String) : Option (Globals × String) :=
+  match ws with
+  | "junk" :: rest => do
+    let g' ← parseGlobals rest
+    some (g', "-")
+  | "recv" :: rest => do
+    let cust ← kv rest "cust"
+    let dl ← kv rest "dl"
+    let r : Req := {
+      custOk := cust != "bad",
+      maxSize := ← (kv rest "max").bind hexBytes, mode := ← (kv rest "mode").bind hexBytes,
+      rate := ← (kv rest "rate").bind hexBytes, burst := ← (kv rest "burst").bind hexBytes,
+      id := ← (kv rest "id").bind hexBytes, tok := ← (kv rest "tok").bind hexBytes,
+      ver := ← (kv rest "ver").bind hexBytes,
+      now := if dl == "past" then 1 else 0 }
+    let t : Token := {
+      id := ← (kv rest "tid").bind hexBytes, tok := ← (kv rest "ttok").bind hexBytes,
+      ver := ← (kv rest "tver").bind hexBytes, deadline := 0 }
+    let res := receive g r t
+    let gs := showGlobals res.1
+    match res.2 with
+    | .error e => some (res.1, s!"err={showErr e} st=400 g={gs}")
+    | .ok p =>
+      let sp := sendParams res.1
+      let sh := match p.shaping with
+        | some (rate, burst) => s!"rate={rate} burst={burst}"
+        | none => "rate=- burst=-"
+      let bk := match sp.shaping with
+        | some (cap, refill) => s!"cap={cap} refill={refill}"
+        | none => "cap=- refill=-"
+      some (res.1, s!"ok limit={p.limit} mode={showMode p.mode} {sh} {bk} st=200 g={gs}")
+  | _ => none
+
+def direcvModel : Model where
+  σ := Globals
+  init := fun
+    | [] => some initGlobals
+    | ws => parseGlobals ws
+  step := recvStep
+
+/-! send -/
+
+/-- the harness's payload pattern: byte `i` of the payload generated from `seed` -/
+def patByte (seed i : Nat) : UInt8 := UInt8.ofNat ((seed + i * 31 + i / 256 * 17) % 256)
+
+def patChunks (seed : Nat) : Nat → List Nat → List Bytes
+  | _, [] => []
+  | off, c :: cs => ((List.range c).map fun i => patByte seed (off + i)) :: patChunks seed (off + c) cs
+
+def fnvStep (h : UInt64) (b : UInt8) : UInt64 := (h ^^^ b.toUInt64) * 1099511628211
+def fnvInit : UInt64 := 14695981039346656037
+def fnvBytes (h : UInt64) (bs : List UInt8) : UInt64 := bs.foldl fnvStep h
+def fnvStr (h : UInt64) (s : String) : UInt64 := s.toUTF8.foldl fnvStep h
+
+def parseNatList (s : String) : Option (List Nat) :=
+  if s == "-" then some [] else (s.splitOn ",").mapM (·.toNat?)
+
+def showTrailer : Trailer → String
+  | .complete => "Complete" | .oversized => "Oversized" | .truncated => "Truncated"
+
+def sendStep (p : SendParams) (ws : List String) : Option (SendParams × String) :=
+  match ws with
+  | "send" :: rest => do
+    let seed ← (kv rest "seed").bind (·.toNat?)
+    let cs ← (kv rest "chunks").bind parseNatList
+    let fail ← kv rest "fail"
+    let wt ← kv rest "wt"
+    let reset ← (kv rest "reset").bind optNat
+    let budget ← (kv rest "budget").bind optNat
+    let src : Src := { chunks := patChunks seed 0 cs, fail := fail == "1", writerTo := wt == "1" }
+    let o := send p src { resetAt := reset, budget := budget }
+    let n := o.forwarded.length
+    let h := o.writes.foldl fnvBytes fnvInit
+    let wh := o.writes.foldl (fun h w => fnvStr h (toString w.length ++ ",")) fnvInit
+    let rc := match o.trailer with
+      | .complete => "none"
+      | .truncated => "truncated"
+      | .oversized => s!"toolarge:{n}:{p.maxSize}"
+    some (p, s!"n={n} h={h.toNat} nw={o.writes.length} wh={wh.toNat} eor={showTrailer o.trailer} rc={rc}")
+  | _ => none
+
+def disendModel : Model where
+  σ := SendParams
+  init := fun ws => do
+    let lim ← (kv ws "limit").bind parseIntS
+    let m ← (kv ws "mode").bind parseModeS
+    let cap ← (kv ws "cap").bind optNat
+    let refill ← (kv ws "refill").bind optNat
+    let sh := match cap, refill with
+      | some c, some r => some (c, r)
+      | _, _ => none
+    some { mode := m, maxSize := lim, shaping := sh }
+  step := sendStep
+
+/-! bucket -/
+
+def bucketModel : Model where
+  σ := Bucket.Bucket
+  init := fun
+    | [c, t, r] => do some { capacity := ← c.toNat?, tokens := ← t.toNat?, refill := ← r.toNat? }
+    | _ => none
+  step := fun b ws =>
+    match ws with
+    | ["tick"] => let b' := Bucket.produce b; some (b', s!"tokens={b'.tokens}")
+    | ["consume", n] => do
+      let r := Bucket.consume b (← n.toNat?)
+      some (r.1, s!"ok={if r.2 then 1 else 0} tokens={r.1.tokens}")
+    | _ => none
+
+/-- per-buffer waits of a chunked write -/
+def admitList : Bucket.Bucket → List Nat → Option (List Nat × Bucket.Bucket)
+  | b, [] => some ([], b)
+  | b, n :: ns => do
+    let (k, b') ← Bucket.admitOne b n
+    let (ks, b'') ← admitList b' ns
+    some (k :: ks, b'')
+
+def dishapeModel : Model where
+  σ := Bucket.Bucket
+  init := fun
+    | [rate, burst] => do
+      let r ← rate.toNat?
+      let b ← burst.toNat?
+      some { capacity := b, tokens := b, refill := Bucket.refillOf r Gen.DirectConsts.defaultRefillIntervalMs }
+    | _ => none
+  step := fun b ws =>
+    match ws with
+    | ["params"] => some (b, s!"cap={b.capacity} refill={b.refill} tokens={b.tokens}")
+    | ["idle", k] => do
+      let b' := Bucket.produceN (← k.toNat?) b
+      some (b', s!"tokens={b'.tokens}")
+    | ["write", n] => do
+      let n ← n.toNat?
+      -- `BandwidthLimitingWriter.Write`: larger than the bucket → capacity-sized pieces
+      let sizes := (chunks (List.replicate n ()) b.capacity).map List.length
+      let (ks, b') ← admitList b sizes
+      let ticks := ks.foldl (· + ·) 0
+      some (b', s!"ret={n} sizes={",".intercalate (sizes.map toString)} waits={",".intercalate (ks.map toString)} ticks={ticks} tokens={b'.tokens}")
+    | _ => none
+
+def directInvokeModels : List (String × Model) :=
+  [("direcv", direcvModel), ("disend", disendModel), ("bucket", bucketModel), ("dishape", dishapeModel)]
 
 end Rie.Oracle
